@@ -43,9 +43,13 @@ CtrlsSim == { Ctl(pk, f, n, pre, tg, sec) : pk \in {"p1", "p2", "p1/f1x"}, f \in
 CtrlsSimD == { [c EXCEPT !.desc = ds] : c \in CtrlsSim, ds \in {"", "\n", "A controller\n"} }
 \* doc-comment layouts: no free text, plain text, nothing but blank comment lines, text followed / preceded by blank lines
 DescChoices == {"", "Does something", "\n", "\nText after a blank line", "Text\n\nmore text\n"}
-MethodsSim == { [Mth(f, v, r, h, d, sec) EXCEPT !.desc = ds] @@ [hiddenSfx |-> hs, deprecatedSfx |-> dps] : f \in {"", "f1", "f2"}, v \in {"GET", "POST", "PUT", "DELETE", "PATCH"},
-                                          r \in {"/", "/x", "x", "//x", "/x/", "/{id}", "/{id}/y", "/x/{id}", "/y", "/{key}", "/x/{key}"}, h \in BOOLEAN, d \in BOOLEAN, sec \in SecShapes,
-                                          ds \in DescChoices, hs \in {"", "(INTERNAL)", " not for the public docs"}, dps \in {"", " use the v2 route instead"} }
+\* (doc-comment layout and annotation spelling vary together: five variants instead of their product)
+Spellings == { <<"", "", "">>, <<"Does something", "(INTERNAL)", "">>, <<"\n", "", " use the v2 route instead">>,
+               <<"\nText after a blank line", " not for the public docs", "">>, <<"Text\n\nmore text\n", "", "">> }
+MethodsSim == { [Mth(f, v, r, h, d, sec) EXCEPT !.desc = sp[1]] @@ [hiddenSfx |-> sp[2], deprecatedSfx |-> sp[3]] :
+                                          f \in {"", "f1", "f2"}, v \in {"GET", "POST", "PUT", "DELETE", "PATCH"},
+                                          r \in {"/", "/x", "x", "//x", "/x/", "/{id}", "/{id}/y", "/x/{id}", "/y", "/{key}"}, h \in BOOLEAN, d \in BOOLEAN, sec \in SecShapes,
+                                          sp \in Spellings }
 \* ---- C06: parameter lists, pointer-ness, locations, aliases, validators, return shapes, error responses --------------------
 NoTypes == {<<>>}
 Fld(n, t, js, v) == [name |-> n, type |-> t, json |-> js, valid |-> v, desc |-> "", embed |-> FALSE, deprecated |-> FALSE]
